@@ -29,6 +29,24 @@ def run(tier, seed, replay=None):
         ("a = make([]int64, 2); r = []; for x in a { a[0] = 5; a[1] = 6; r += x }; r", "[i:0,i:6]", "the loop variable of a for-in over a typed slice holds the element's value at its iteration"),
         ("a = [1]; b = a[0]; a[0] = 9; [b, a[0]]", "[i:1,i:9]", "an element read from a list is a copy"),
     ]
+    # slices and maps are reference values when passed: every call path hands on the container itself
+    shared = []
+    for call, decl, why in (
+            ("f(a)", "func f(xs) { xs[0] = 9 }", "a list passed to a script function"),
+            ("f(a, 1, 2, 3, 4)", "func f(xs, p, q, r, s) { xs[0] = 9 }", "a list passed to a script function of five parameters"),
+            ("f(a...)", "func f(xs...) { xs[0] = 9 }", "a list spread into a variadic script function (Go passes the slice itself)"),
+            ("f(7, a...)", "func f(p, xs...) { xs[0] = 9 }", "a list spread into the variadic tail after a fixed parameter"),
+            ("f(1, a)", "func f(p, xs...) { xs[0][0] = 9 }", "a list passed inside the variadic tail"),
+            ("func() { defer f(a) }()", "func f(xs) { xs[0] = 9 }", "a list passed to a deferred call"),
+            ("f([a]...)", "func f(xs) { xs[0] = 9 }", "a list passed through a spread into a fixed parameter"),
+            ("g = func(xs) { xs[0] = 9 }; g(a)", "", "a list passed to a function value")):
+        shared.append(("%s\na = [1, 2]\n%s\na" % (decl, call), "[i:9,i:2]", why + " is the caller's list: a store through the parameter shows in it"))
+        shared.append(("%s\nc = [0, 1, 2]\na = c[1:]\n%s\nc" % (decl, call), "[i:0,i:9,i:2]", why + ", the list being a view of another: the store shows in the source"))
+        shared.append(("%s\na = {\"k\": [1, 2]}.k\nb = a\n%s\nb" % (decl, call), "[i:9,i:2]", why + ", reached through a second name"))
+    for call, decl, why in (("f(m)", "func f(x) { x.k = 9 }", "a map passed to a script function"), ("f(1, m)", "func f(p, xs...) { xs[0].k = 9 }", "a map passed in a variadic tail"),
+                            ("f([m]...)", "func f(x) { x.k = 9 }", "a map passed through a spread")):
+        shared.append(("%s\nm = {\"k\": 1}\n%s\nm.k" % (decl, call), "i:9", why + " is the caller's map"))
+    detached += shared
     expectations = [{"src": src, "field": "result", "want": want, "why": why} for src, want, why in detached]
     expectations += [{"src": p["src"], "field": "trace", "want": p["want"],
                      "why": "the observations of a container history equal those of the same operations on Go values"} for p in data["untyped"]]
